@@ -336,6 +336,83 @@ class _TF(object):
         return out
 
 
+def _allowlist_exits(atree):
+    """Every call of _call_unconverted in api.converted_call / _fall_back_unconverted:
+    (guard depends on the calling context, writes the allowlist cache, description)."""
+    fns = dict((n.name, n) for n in atree.body if isinstance(n, ast.FunctionDef))
+    for need in ('converted_call', '_call_unconverted', '_fall_back_unconverted'):
+        if need not in fns:
+            raise Untranslatable('untranslatable: api.py: function %s not found' % need)
+    cu = fns['_call_unconverted']
+    params = [a.arg for a in cu.args.args]
+    if params != ['f', 'args', 'kwargs', 'options', 'update_cache'] or len(cu.args.defaults) != 1 \
+            or not (isinstance(cu.args.defaults[0], ast.Constant) and isinstance(cu.args.defaults[0].value, bool)):
+        _fail('api.py', cu, '_call_unconverted signature')
+    default = cu.args.defaults[0].value
+    body = _nodoc(cu.body)
+    first = body[0] if body else None
+    if not (isinstance(first, ast.If) and _is_name(first.test, 'update_cache') and not first.orelse
+            and [ast.unparse(x) for x in first.body] == ['conversion.cache_allowlisted(f, options)']):
+        _fail('api.py', cu, '_call_unconverted does not start with `if update_cache: conversion.cache_allowlisted(f, options)`')
+    for n in ast.walk(atree):
+        if isinstance(n, ast.Attribute) and n.attr == 'cache_allowlisted':
+            inside = any(n is m for m in ast.walk(cu))
+            if not inside:
+                _fail('api.py', n, 'the allowlist cache is written outside _call_unconverted')
+    for st in body[1:]:
+        for n in ast.walk(st):
+            if isinstance(n, ast.Attribute) and n.attr == 'cache_allowlisted':
+                _fail('api.py', n, 'second write of the allowlist cache in _call_unconverted')
+    sites = []
+
+    def ctx_dep(test):
+        return any((isinstance(n, ast.Name) and n.id == 'ag_ctx') or
+                   (isinstance(n, ast.Attribute) and n.attr in ('control_status_ctx', 'Status', 'status'))
+                   for n in ast.walk(test))
+
+    def visit(stmts, guards):
+        for st in stmts:
+            if isinstance(st, ast.If):
+                visit(st.body, guards + [st.test])
+                visit(st.orelse, guards + [st.test])
+            elif isinstance(st, ast.Try):
+                visit(st.body, guards)
+                for h in st.handlers:
+                    visit(h.body, guards)
+                visit(st.orelse, guards)
+                visit(st.finalbody, guards)
+            elif isinstance(st, (ast.With, ast.For, ast.While)):
+                visit(st.body, guards)
+                visit(getattr(st, 'orelse', []), guards)
+            elif isinstance(st, (ast.FunctionDef, ast.ClassDef)):
+                _fail('api.py', st, 'nested definition in converted_call')
+            else:
+                for n in ast.walk(st):
+                    if isinstance(n, ast.Call) and _is_name(n.func, '_call_unconverted'):
+                        upd = None
+                        if len(n.args) >= 5:
+                            upd = n.args[4]
+                        for kw in n.keywords:
+                            if kw.arg == 'update_cache':
+                                upd = kw.value
+                            elif kw.arg is None:
+                                _fail('api.py', n, '**kwargs in a _call_unconverted call')
+                        if upd is None:
+                            val = default
+                        elif isinstance(upd, ast.Constant) and isinstance(upd.value, bool):
+                            val = upd.value
+                        else:
+                            _fail('api.py', n, 'update_cache argument of _call_unconverted is not a literal')
+                        dep = any(ctx_dep(g) for g in guards)
+                        why = ast.unparse(guards[-1])[:70] if guards else 'unconditional'
+                        sites.append((dep, val, 'line %d, under `%s`' % (n.lineno, why)))
+    visit(_nodoc(fns['converted_call'].body), [])
+    visit(_nodoc(fns['_fall_back_unconverted'].body), [])
+    if not any(d for d, _, _ in sites):
+        _fail('api.py', fns['converted_call'], 'the "AutoGraph is disabled in context" exit of converted_call was not found')
+    return sites
+
+
 def translate(repo):
     # ---- transpiler.py
     path = os.path.join(repo, 'malt', 'pyct', 'transpiler.py')
@@ -454,11 +531,13 @@ def translate(repo):
     else:
         _fail('api.py', ck, 'get_caching_key returns something else than ctx.options')
 
+    exits = _allowlist_exits(atree)
+
     out = ['(* GENERATED on every run by tools/translate/c10_cache.py from malt/pyct/transpiler.py,',
            '   malt/pyct/cache.py and malt/impl/api.py -- do not edit *)',
            'From Coq Require Import List.',
            'Import ListNotations.',
-           'Require Import MV.Cache.Machine MV.Cache.KeySrc.',
+           'Require Import MV.Cache.Machine MV.Cache.KeySrc MV.Cache.Allowlist.',
            '(* PyToPy.transform_function *)',
            'Definition transform_function_prog : prog :=',
            '  [%s].' % '; '.join(prog),
@@ -467,7 +546,12 @@ def translate(repo):
            '(* _TransformedFnCache.has only reads (no __getitem__, no store): checked by the translator *)',
            'Definition cache_has_read_only : bool := true.',
            '(* api.PyToPy.get_caching_key *)',
-           'Definition cache_subkey_src : subkey_src := %s.' % sub_src]
+           'Definition cache_subkey_src : subkey_src := %s.' % sub_src,
+           '(* api.converted_call / _fall_back_unconverted: every _call_unconverted exit,',
+           '   (guard depends on the calling context, writes the allowlist cache) *)',
+           'Definition allowlist_exits : exits :=',
+           '  [' + ';\n   '.join('(%s, %s) (* %s *)' % ('true' if d else 'false', 'true' if v else 'false', w.replace('*)', '* )').replace('(*', '( *').replace('"', "'"))
+                               for d, v, w in exits) + '].']
     return '\n'.join(out) + '\n'
 
 
